@@ -93,7 +93,7 @@ def rule_wctx(prog, em):
                 for e in tup.data[2]['ops']:
                     eo = single_origin(trace_operand(b, e, through_calls=set()))
                     r = None
-                    if eo is not None and eo.kind == 'callres' and eo.data.ruid == em.exec.id:
+                    if eo is not None and eo.kind == 'callres' and eo.data.ruid in em.eval_ids:
                         p = em.child_prov(eo.data)
                         r = r_order.prov_root(p) if p else None
                     roots.append(r)
@@ -163,8 +163,8 @@ def rule_ctx_store(prog, em):
     absent name and the stored value for a variable; references pass the node's own name"""
     obs = []
     cw = em.ctx_writers()
-    from_exec = {em.exec.id}
-    work = [em.exec.id]
+    from_exec = set(em.eval_ids)
+    work = list(em.eval_ids)
     while work:
         x = work.pop()
         for y in prog.edges.get(x, ()):
